@@ -41,6 +41,10 @@ Qed.
 Lemma qsum_zeros : forall l : list (Z * Q), Forall (fun p => (snd p == 0)%Q) l -> (qsum (map snd l) == 0)%Q.
 Proof. intros l H. induction H as [|p l Hp _ IH]; cbn [map qsum]; [reflexivity|]. rewrite Hp, IH. ring. Qed.
 
+Lemma filter_combine_head : forall (f : Z * Q -> bool) a b js ws, f (a, b) = true ->
+  filter f (combine (a :: js) (b :: ws)) = (a, b) :: filter f (combine js ws).
+Proof. intros f a b js ws H. cbn [combine filter]. rewrite H. reflexivity. Qed.
+
 (* the buffered neighbour list of a self-located voxel: itself with weight 1,
    then only zero weights *)
 Lemma self_neigh : forall J d0 d1 d2 v, self_located J d0 d1 d2 v -> 0 <= vi v ->
@@ -54,8 +58,8 @@ Proof.
   rewrite gen_nx_floor, gen_ny_floor, gen_nz_floor, !Qfloor_Z in *.
   remember (qweights (x + 1) (y + 1) (z + 1) (inject_Z x) (inject_Z y) (inject_Z z)) as ws eqn:Ews.
   inversion W as [|w0 o ws' zs' E0 W' Eq1 Eq2]. clear W. subst o zs'.
-  cbn [map combine filter fst]. rewrite HJ.
-  unfold gen_append_cond at 1. replace (0 <=? vi v) with true by lia.
+  cbn [map]. rewrite HJ.
+  rewrite filter_combine_head by (cbn [fst]; unfold gen_append_cond; lia).
   eexists. eexists. split; [reflexivity|]. split; [exact E0|].
   apply Forall_filter. eapply zero_tail; [exact W'|]. repeat constructor.
 Qed.
@@ -84,7 +88,6 @@ Proof.
   intros q i Hi Hq. rewrite c_UROUND_nonneg.
   2:{ rewrite Hq. change 0%Q with (inject_Z 0). rewrite <- Zle_Qle. exact Hi. }
   pose proof (Qfloor_le (q + (1 # 2))) as F1. pose proof (Qlt_floor (q + (1 # 2))) as F2.
-  rewrite Hq in F1, F2.
   assert (A : (inject_Z (Qfloor (q + (1 # 2))) < inject_Z (i + 1))%Q).
   { rewrite inject_Z_plus. change (inject_Z 1) with 1%Q. lra. }
   assert (B : (inject_Z i < inject_Z (Qfloor (q + (1 # 2)) + 1))%Q) by lra.
@@ -105,7 +108,8 @@ Proof.
   destruct (self_neigh J d0 d1 d2 v Hs ltac:(lia)) as (w0 & rest & -> & Hw0 & Hrest).
   destruct m; cbn [updates].
   - (* pv *)
-    unfold pv_updates. cbn [map fst snd apply_updates fold_left]. unfold gen_pv_index at 1, gen_pv_incr at 1. fold k.
+    unfold pv_updates. cbn [map fst snd apply_updates fold_left].
+    change (gen_pv_index (vi v) c (vi v)) with k. change (gen_pv_incr (vi v) w0) with w0.
     set (us := map (fun p : Z * Q => (gen_pv_index (fst p) c (vi v), gen_pv_incr (fst p) (snd p))) rest).
     change (fold_left (fun H p => add_at (fst p) (snd p) H) us (add_at k w0 H)) with (apply_updates us (add_at k w0 H)).
     assert (Hus : Forall (fun p : Z * Q => (snd p == 0)%Q) us).
